@@ -39,7 +39,7 @@ pub fn plan(prop: &str) -> Vec<Batch> {
         "C09" => vec![b("b", "C09", 40_000, 1_500_000, "release")],
         "C10" => vec![b("b", "C10", 40_000, 1_500_000, "release")],
         "C11" => vec![b("b", "C11", 8_000, 150_000, "release")],
-        "C12" => vec![b("b", "C12", 40_000, 1_500_000, "release")],
+        "C12" => vec![b("b", "C12", 40_000, 1_500_000, "release"), b("b", "C12x", 400, 10_000, "release")],
         "C13" => vec![b("b", "C13", 40_000, 1_500_000, "release")],
         "C14" => vec![b("a", "C14", 50_000, 1_000_000, "release")],
         "C15" => vec![b("b", "C15", 40_000, 1_500_000, "release"), b("a", "C15", 5_000, 100_000, "release")],
@@ -532,7 +532,7 @@ fn rule_for(prop: &str) -> &'static str {
         "C08" => "seeded swarm instances with maintenance slots; non-trivial: the search accepted >= 1 step; distinct by run digest",
         "C09" | "C10" | "C13" => "seeded operation sequences on Schedule through the public API next to a reference state; non-trivial: >= 3 successful operations of >= 2 kinds; distinct by digest of (instance, op sequence)",
         "C11" => "seeded non-improving walks through RSSchedParallelNeighborhood, all candidates of each state; non-trivial: >= 3 swap kinds produced candidates; distinct by digest of (instance, walk)",
-        "C12" => "seeded tour edits (insert/remove/sub_path/conflict) on tie-rich, partly non-metric networks against the executable reference; non-trivial: >= 3 edits incl. one with a tie or a depot in the path; distinct by digest",
+        "C12" => "batch 1: seeded tour edits (insert/remove/sub_path/conflict) inside operation histories on tie-rich, partly non-metric networks against the executable reference; batch 2 (small scope, exhaustive per network): on each of N seeded networks with <= 7 activities per type, ALL valid tours (two depot pairs incl. overflow, and as dummy tours), ALL valid paths of <= 3 activities (with/without leading/trailing depot) and ALL segments are compared (logical_steps counts these comparisons); the networks themselves are sampled; non-trivial: >= 3 successful operations of >= 2 kinds (batch 1) / >= 50 comparisons (batch 2); distinct by digest",
         "C14" => "seeded instances without type coupling through MinCostFlowSolver::solve vs an independent successive-shortest-path optimum; non-trivial: >= 2 vehicles and >= 1 chained pair; distinct by digest",
         "C15" => "seeded Transition operation sequences against Vec<Vec<VehicleIdx>> plus optimiser input/output in the pipeline; non-trivial: >= 3 operations on >= 2 cycles (ops) / >= 2 cycles or optimiser changed a cycle (pipeline); distinct by digest",
         "C16" => "seeded swarm instances with slots, stage snapshots of one solve_instance call; non-trivial: optimiser changed a cycle or the search accepted a step; distinct by run digest",
